@@ -84,7 +84,20 @@ class Model:
                 o = PartHandler(name, ups, cycle_time=d['cyc'] * TICK)
             elif k == 'processor':
                 req = d.get('req') or None
-                o = PartProcessor(name, ups, cycle_time=d['cyc'] * TICK, resources_for_processing=dict(req) if req else None)
+
+                class WP(PartProcessor):
+                    """the default Maintainable behaviour (shutdown / restore) with configured order parameters"""
+                    _wo = (d.get('wodur', 0) * TICK, d.get('wocap', 0), d.get('wocost', 0))
+
+                    def get_work_order_duration(self, tag):
+                        return self._wo[0]
+
+                    def get_work_order_capacity(self, tag):
+                        return self._wo[1]
+
+                    def get_work_order_cost(self, tag):
+                        return self._wo[2]
+                o = WP(name, ups, cycle_time=d['cyc'] * TICK, resources_for_processing=dict(req) if req else None)
             elif k == 'buffer':
                 cap = None if d.get('cap', INF) == INF else d['cap']
                 o = Buffer(name, ups, minimum_delay=d.get('delay', 0) * TICK, capacity=cap)
@@ -120,8 +133,8 @@ class Model:
             self.by_asset[g._input_device.id] = -gid * 2
             self.by_asset[g._output_device.id] = -gid * 2 - 1
         self.maint = None
-        if cfg.get('maint'):
-            c = cfg['maint'].get('cap', INF)
+        if any(c.get('call') == 'workorder' for c in cfg.get('script') or []):
+            c = cfg.get('maintcap', INF)
             self.maint = Maintainer('mt', capacity=float('inf') if c == INF else c)
             self.by_asset[self.maint.id] = -1000
 
